@@ -5,10 +5,11 @@ ROOT = os.path.normpath(os.path.join(os.path.dirname(os.path.abspath(__file__)),
 COQ = os.path.join(ROOT, "coq")
 BUILD = os.path.join(ROOT, "build")
 HARNESS = os.path.join(ROOT, "harness")
-REPO = "/repo"
+REPO = os.environ.get("VERIF_REPO", "/repo")   # scratch worktrees of /repo can be checked without touching /repo
 D2H = os.path.join(BUILD, "d2h")
 
-GOENV = dict(os.environ, GOFLAGS="-mod=mod", GOPROXY="off", CGO_ENABLED="0")
+GOENV = dict(os.environ, GOFLAGS="-mod=mod", GOPROXY="off", CGO_ENABLED="0",
+             VERIF_REPO=os.environ.get("VERIF_REPO", "/repo"))
 for k in ("GOSUMDB", "GOTOOLCHAIN"):
     GOENV.pop(k, None)
 
@@ -53,7 +54,13 @@ def build_harness():
                 open(gosum, "w").write(src)
         except OSError:
             pass
-        rc, out = run(["go", "build", "-tags", "verif", "-o", D2H, "."], cwd=HARNESS, env=GOENV, timeout=1500)
+        cmd = ["go", "build", "-tags", "verif", "-o", D2H]
+        if REPO != "/repo":
+            alt = os.path.join(BUILD, "go.alt.mod")
+            open(alt, "w").write(open(os.path.join(HARNESS, "go.mod")).read().replace("=> /repo", "=> " + REPO))
+            open(os.path.join(BUILD, "go.alt.sum"), "w").write(open(os.path.join(REPO, "go.sum")).read())
+            cmd += ["-modfile", alt]
+        rc, out = run(cmd + ["."], cwd=HARNESS, env=GOENV, timeout=1500)
         return rc == 0, out
 
 
